@@ -59,13 +59,14 @@ Fixpoint filtered_diff (u : list channel) (dev : list Z) (diff : list Z) : outco
 (* band.go:577-581: the ChMask of block [cntl], built by looping over the
    enabled channels.  [ec] always comes from GetEnabledUplinkChannelIndices and
    is a valid index. *)
+Definition block_mask_step (B : Z) (u : list channel) (dev : list Z) (cntl : Z)
+           (acc : outcome (list bool)) (ec : Z) : outcome (list bool) :=
+  do m <- acc;
+  do cu <- custom_at u ec;
+  if (negb cu || channel_is_active dev ec) && (ec >=? cntl * B) && (ec <? (cntl + 1) * B)
+  then Ok (upd m (Z.to_nat (Z.rem ec B)) true) else Ok m.
 Definition block_mask (B : Z) (u : list channel) (dev en : list Z) (cntl : Z) : outcome (list bool) :=
-  fold_left (fun (acc : outcome (list bool)) ec =>
-    do m <- acc;
-    do cu <- custom_at u ec;
-    if (negb cu || channel_is_active dev ec) && (ec >=? cntl * B) && (ec <? (cntl + 1) * B)
-    then Ok (upd m (Z.to_nat (Z.rem ec B)) true) else Ok m)
-    en (Ok (repeat false (Z.to_nat B))).
+  fold_left (block_mask_step B u dev cntl) en (Ok (repeat false (Z.to_nat B))).
 
 (* band.go:564-585: loop over the sorted diff, one payload per change of c/16;
    chMaskCntl starts at -1; Go's / truncates toward zero *)
